@@ -148,12 +148,13 @@ class Model:
             self._index_module(m)
         self.renamed_functions: List[str] = []
         if canonical_locals:
-            from .reflocals import canonicalise
+            from .reflocals import canonicalise, unflip
 
             for q, f in self.funcs.items():
                 if f.parent is None and not isinstance(f.node, ast.Lambda):
                     if canonicalise(q, f.node):
                         self.renamed_functions.append(q)
+                    unflip(q, f.node)
         for c in self.classes.values():
             c.bases = [self.resolve_expr(c.module, b, c) or _dotted(b) or "?" for b in c.base_exprs]
 
